@@ -3,6 +3,7 @@ package vgen
 import (
 	"fmt"
 	"sort"
+	"strings"
 
 	"golang.org/x/telemetry/internal/telemetry"
 	"golang.org/x/telemetry/internal/verif/vmodel"
@@ -103,9 +104,11 @@ func MutateReport(t *rapid.T, cfg *telemetry.UploadConfig, r *telemetry.Report) 
 	}
 	switch kind {
 	case "week":
-		r.Week = rapid.SampledFrom([]string{"2024-13-01", "2024-1-1", "../../x", "", "2024-02-30", "2024-01-01 ", "20240101", "2024-01-01/..", "2024/01/01"}).Draw(t, "badWeek")
+		r.Week = rapid.SampledFrom([]string{"2024-13-01", "2024-1-1", "../../x", "", "2024-02-30", "2024-01-01 ", "20240101", "2024-01-01/..", "2024/01/01",
+			// text that is long in bytes and short in characters (error messages quote it), and bytes that are no text at all
+			strings.Repeat("二〇二四年", 4), strings.Repeat("\xff", 25), strings.Repeat("é", 45), strings.Repeat("年", 27)}).Draw(t, "badWeek")
 	case "config":
-		r.Config = rapid.SampledFrom([]string{"1.2.3", "", "vx", "v1.2.3.4", "latest", "v-1.0.0", "v1.02.3"}).Draw(t, "badConfig")
+		r.Config = rapid.SampledFrom([]string{"1.2.3", "", "vx", "v1.2.3.4", "latest", "v-1.0.0", "v1.02.3", "v" + strings.Repeat("版本", 11), strings.Repeat("\xfe", 30)}).Draw(t, "badConfig")
 	case "x":
 		r.X = 0
 	case "program":
@@ -173,7 +176,7 @@ func MutateReport(t *rapid.T, cfg *telemetry.UploadConfig, r *telemetry.Report) 
 		for _, e := range ExprPool {
 			pool = append(pool, vmodel.ExpandBuckets(e)...)
 		}
-		pool = append(pool, "chart:b4", "a/b ", "A/B", "chart:", "x/y")
+		pool = append(pool, "chart:b4", "a/b ", "A/B", "chart:", "x/y", strings.Repeat("计数器名称", 4), "c/"+strings.Repeat("\xff", 24), strings.Repeat("ü", 40))
 		p.Counters[notIn(pool, listed, "badCounter")] = 1
 	case "literal":
 		if len(pc.Counters) == 0 {
